@@ -293,6 +293,12 @@ pub const REPEATERS: &[(&str, Kind, bool, Gen)] = &[
     }),
     // ---- long lexical items
     ("long:identifier", Kind::Wide, true, |n| format!("fn f() -> i32 {{ let {0} = 1; {0} }}", "a".repeat(n))),
+    // a literal of n KiB: above the allocator's mmap threshold the data object of the literal
+    // and the code of the function are allocated far apart (audit of C11: 32-bit relocation)
+    ("huge:string-literal-KiB", Kind::Wide, true, |n| format!("fn f() -> String {{ \"{}\" }}", "a".repeat(n * 1024))),
+    ("huge:string-literals-KiB", Kind::Wide, true, |n| {
+        format!("fn f() -> String {{ \"{}\" + \"{}\" }}", "a".repeat(n * 1024), "b".repeat(n * 512))
+    }),
     ("long:string", Kind::Wide, true, |n| format!("fn f() -> String {{ \"{}\" }}", "é".repeat(n))),
     ("long:fstring-text", Kind::Wide, true, |n| format!("fn f() -> String {{ f\"{}\" }}", "é".repeat(n))),
     ("long:integer", Kind::Wide, false, |n| format!("fn f() -> u64 {{ {} }}", "9".repeat(n))),
